@@ -6,6 +6,7 @@
     public query method; observed results / errors / resultcount / call sequence / return value are compared.
 (V) cache histories (cold, warm, partially filled) recorded from the real Service + Cache and validated by TLC.
 """
+import copy
 import json
 import os
 import sys
@@ -360,6 +361,16 @@ def cache_history(job):
     btxs = {('b', i): mk(20 + i, HEIGHT) for i in range(NB)}
     allt = dict(singles)
     allt.update(btxs)
+    # the transactions of the address histories can also be asked for one by one; delivered that way their outputs carry no
+    # spent information (spent=None, as clients without an address index deliver them)
+    hsingle = {}
+    for a, l in hist.items():
+        for t in l:
+            c = copy.deepcopy(t)
+            for o in c.outputs:
+                o.spent = None
+            hsingle[hid[t.txid]] = c
+    allt.update(hsingle)
     fps = {_fp(t): k for k, t in allt.items()}
     bytxid = {t.txid: k for k, t in allt.items()}
     feec = [0]
@@ -407,15 +418,24 @@ def cache_history(job):
         # the constructor has asked the provider for the block count
         events.append({'op': 'count', 'prov': 'ok', 'ok': True, 'val': HEIGHT + 99, 'ret': int(srv._blockcount)})
         desc.append('Service(): blockcount() prov=ok')
-    for _ in range(nops):
+    # some histories start with: newest transaction of an address asked for alone, its unspent outputs, an older transaction
+    # asked for alone (cached without spent information), the unspent outputs again
+    plan = []
+    if rng.random() < 0.3:
+        pa = rng.choice(['a1', 'a2'])
+        plan = [('tx', hid[hist[pa][1].txid]), ('utxos', pa), ('tx', hid[hist[pa][0].txid]), ('utxos', pa)]
+    for step in range(nops):
         prov = rng.choice(['ok', 'ok', 'fail'])
+        forced = plan[step] if step < len(plan) else None
+        if forced:
+            prov = 'ok'
         vfake.SCRIPT['p1'] = 'ok' if prov == 'ok' else 'raise'
-        op = rng.choice(['tx', 'raw', 'block', 'block', 'block', 'fee', 'txs', 'txs', 'utxos', 'utxos', 'balance', 'isspent', 'isspent', 'count'])
+        op = forced[0] if forced else rng.choice(['tx', 'raw', 'block', 'block', 'block', 'fee', 'txs', 'txs', 'utxos', 'utxos', 'balance', 'isspent', 'isspent', 'count'])
         ev = {'op': op, 'prov': prov, 'ok': True}
         d = [op]
         try:
             if op in ('tx', 'raw'):
-                k = rng.choice(sorted(allt))
+                k = forced[1] if forced else rng.choice(sorted(allt))
                 ev['t'] = list(k)
                 d[0] = '%s(%s) prov=%s' % (op, k, prov)
                 r = srv.gettransaction(allt[k].txid) if op == 'tx' else srv.getrawtransaction(allt[k].txid)
@@ -439,7 +459,7 @@ def cache_history(job):
                     ev['ret'] = [list(hid.get(t.txid, ('corrupt', n))) if _fp_light(t) == _fp_light(next((x for x in hist[a] if x.txid == t.txid), t))
                                  else ['corrupt', n] for n, t in enumerate(r)]
             elif op == 'utxos':
-                a = rng.choice(['a1', 'a2'])
+                a = forced[1] if forced else rng.choice(['a1', 'a2'])
                 ev['a'] = a
                 ev['full'] = [list(hid[u['txid']]) + [u['output_n'], u['value']] for u in utruth[a]]
                 d[0] = 'getutxos(%s) prov=%s' % (a, prov)
